@@ -138,7 +138,7 @@ def blocked_perms(seed, n, count=120):
     return out
 
 
-def coq_expr(case, res):
+def coq_expr(case, res, tests_fn=None):
     fs = case['fs']
     p = case['pol']
     n = len(case['stims'])
@@ -162,8 +162,11 @@ def coq_expr(case, res):
         else:
             a = 'None' if o[1] is None else f'(Some {zlit(eff_time(case, o[1]))})'
             ops.append(('Pause ' if o[0] == 'pause' else 'Resume ') + a)
-    return (f"run_queue {pol} {listlit(['(' + e + ')' for e in es])} {zlist(choices)} "
-            f"{listlit([zlist(pm) for pm in perms])} {listlit(ops)}")
+    args = (f"{pol} {listlit(['(' + e + ')' for e in es])} {zlist(choices)} "
+            f"{listlit([zlist(pm) for pm in perms])}")
+    tests = tests_fn(args, case) if tests_fn else []
+    tail = (' ++ [' + '; '.join(f'(if {t} then 1 else 0)' for t in tests) + ']') if tests else ''
+    return f"run_queue {args} {listlit(ops)}{tail}", len(tests)
 
 
 def decode(mo, nst):
@@ -197,7 +200,12 @@ def decode(mo, nst):
     return out
 
 
-def compare(case, res, mo):
+def compare(case, res, mo, ntests=0):
+    if ntests:
+        bits = mo[-ntests:]
+        mo = mo[:-ntests]
+        if any(b != 1 for b in bits):
+            return f'the executable form of a Props statement is false on this case (test bits {bits})'
     fs = case['fs']
     nst = len(case['stims'])
     try:
